@@ -309,7 +309,7 @@ def check(case, ctx):
     return None
 
 
-SUBS = [Sub("histories", check, strategy=case, quick=6000, thorough=100000)]
+SUBS = [Sub("histories", check, strategy=case, quick=6000, thorough=50000)]
 KNOWN = {}
 
 # cases at scale (see pv/scale.py)
